@@ -198,10 +198,19 @@ def check_C08(ctx, prog, real, recs):
     for m in prog['meta']:
         k = m['kind']
         mine = by_line.get(m['line'], [])
+        text = m['text']
+        if k == 'li_off_const':
+            val = li_value(mine)
+            want = (m['const'] - mine[0]['off']) % (1 << 32) if mine else None
+            ctx.nontriv(('li_off_const', len(mine)))
+            if val is None or val != want:
+                ctx.cex('line {} "{}" at offset {} loads {} but constant - final position is {}'.format(
+                    m['line'], text, mine[0]['off'] if mine else None, val, want), prog_input(prog), val, want,
+                    {'kind': 'li-value', 'form': 'short' if len(mine) == 1 else 'long', 'ref': 'const-offset'})
+            continue
         L = labels.get(m['label'])
         if L is None:
             continue
-        text = m['text']
         if k == 'dw':
             o = mine[0]['off'] if mine else None
             head = text.split()[0]
@@ -220,7 +229,9 @@ def check_C08(ctx, prog, real, recs):
         elif k == 'li':
             val = li_value(mine)
             arg = text.split(',', 1)[1].strip()
-            if arg.startswith('%position'):
+            if arg.startswith('%offset'):
+                want = L - mine[0]['off'] if mine else None     # relative to the item containing it
+            elif arg.startswith('%position'):
                 want = L + 0x08000000
             elif arg.endswith('+ 4'):
                 want = L + 4
@@ -410,8 +421,8 @@ def make_programs(ctx, n, seed_off=0):
         big = (i % 8 == 0)
         src, meta = gen_programs.program(rng, 'small' if i % 3 else 'medium', big_gap=big)
         progs.append({'source': src, 'meta': meta})
-    for k, (src, meta) in enumerate(gen_programs.scenarios(rng, max(28, n // 3))):
-        progs.append({'source': src, 'meta': meta, 'scenario': k % 14})
+    for k, (src, meta) in enumerate(gen_programs.scenarios(rng, max(2 * gen_programs.NSCEN, n // 3))):
+        progs.append({'source': src, 'meta': meta, 'scenario': k % gen_programs.NSCEN})
     return progs
 
 
